@@ -187,6 +187,22 @@ func (w *World) Resolve(v ssa.Value) ssa.Value {
 		case *ssa.UnOp:
 			if x.Op == token.MUL {
 				addr := w.resolveAddr(x.X)
+				// a field of a spilled value parameter (value receiver) that is bound to a struct built as a
+				// local composite literal in the caller: the field's initialiser there
+				if fa, ok := addr.(*ssa.FieldAddr); ok {
+					if a, ok := w.resolveAddr(fa.X).(*ssa.Alloc); ok {
+						if whole := w.allocSingleStore(a); whole != nil {
+							if ld, ok := w.Resolve(whole).(*ssa.UnOp); ok && ld.Op == token.MUL {
+								if b, ok := w.resolveAddr(ld.X).(*ssa.Alloc); ok && b != a {
+									if s := structFieldInit(b, fa.Field, ld); s != nil {
+										v = s
+										continue
+									}
+								}
+							}
+						}
+					}
+				}
 				if a, ok := addr.(*ssa.Alloc); ok && !(x.Block() != nil && x.Block() == x.Parent().Recover) {
 					if s := w.allocSingleStore(a); s != nil {
 						v = s
@@ -200,6 +216,18 @@ func (w *World) Resolve(v ssa.Value) ssa.Value {
 					// the last store to the cell earlier in the load's own block, for a cell that is
 					// only ever loaded and stored directly (not captured, no address taken)
 					if s := blockLocalStore(a, x); s != nil {
+						v = s
+						continue
+					}
+				}
+			}
+			return v
+		case *ssa.Field:
+			// a field of a struct value that was built as a local composite literal and handed on by value
+			// (k := key{a, b}; k.method()): the field's initialiser
+			if ld, ok := w.Resolve(x.X).(*ssa.UnOp); ok && ld.Op == token.MUL {
+				if a, ok := w.resolveAddr(ld.X).(*ssa.Alloc); ok {
+					if s := structFieldInit(a, x.Field, ld); s != nil {
 						v = s
 						continue
 					}
@@ -917,4 +945,48 @@ func paramIdxOf(p *ssa.Parameter) int {
 		}
 	}
 	return -1
+}
+
+// structFieldInit: a is a local struct cell that is only initialised field by field (one store per
+// field) and then loaded as a whole; the value stored into the field, provided the store dominates
+// the whole-struct load `at`. nil otherwise.
+func structFieldInit(a *ssa.Alloc, field int, at *ssa.UnOp) ssa.Value {
+	if a.Referrers() == nil {
+		return nil
+	}
+	var val ssa.Value
+	n := 0
+	for _, r := range *a.Referrers() {
+		switch x := r.(type) {
+		case *ssa.FieldAddr:
+			if x.Referrers() == nil {
+				continue
+			}
+			for _, fr := range *x.Referrers() {
+				switch y := fr.(type) {
+				case *ssa.Store:
+					if y.Addr != ssa.Value(x) {
+						return nil // the field's address is stored somewhere
+					}
+					if x.Field == field {
+						val = y.Val
+						n++
+						if !instrDominates(y, at) {
+							return nil
+						}
+					}
+				case *ssa.UnOp, *ssa.DebugRef:
+				default:
+					return nil
+				}
+			}
+		case *ssa.UnOp, *ssa.DebugRef:
+		default:
+			return nil // the cell's address escapes
+		}
+	}
+	if n == 1 {
+		return val
+	}
+	return nil
 }
